@@ -160,6 +160,13 @@ func (g *gen) genPkg(pkg *Pkg, earlier []*Pkg) {
 	var decls []Decl
 	g.cur, g.curPkg = nil, pkg
 	defer func() { g.cur, g.curPkg = nil, nil }()
+	// a package that leaves one earlier package alone: it can still reach that
+	// package's types through the API of the ones it does import
+	if len(earlier) >= 2 && g.chance("narrowImports", 35) {
+		drop := g.pick("dropPkg", len(earlier))
+		kept := append([]*Pkg{}, earlier[:drop]...)
+		earlier = append(kept, earlier[drop+1:]...)
+	}
 	// ---- types
 	nTypes := rapid.IntRange(1, 3).Draw(t, "ntypes")
 	var types []*TypeDecl
@@ -359,10 +366,32 @@ func (g *gen) genPkg(pkg *Pkg, earlier []*Pkg) {
 	// ---- functions reaching an imported type only through a same-package helper
 	// (the using file needs no import) and functions whose parameter is spelled
 	// like the package qualifier
-	if len(earlier) > 0 && g.chance("indirectUser", 35) {
-		if ds := g.genIndirect(pkg, earlier, len(decls)); ds != nil {
-			for _, d := range ds {
-				decls = g.add(decls, d)
+	// an exported helper handing out a type of an earlier package (later packages
+	// can reach that type without importing its package)
+	if len(earlier) > 0 && g.chance("exportHelper", 40) {
+		var cands []*TypeDecl
+		for _, ep := range earlier {
+			for _, t := range typesOf(ep) {
+				if t.Kind == KStruct && t.Exported() {
+					cands = append(cands, t)
+				}
+			}
+		}
+		if len(cands) > 0 {
+			t := cands[g.pick("exportHelperType", len(cands))]
+			h := &FuncDecl{ID: g.p.NewID(), Name: fmt.Sprintf("Hx%d", len(decls)), Pkg: pkg, done: true, called: true}
+			h.Results = []*TypeRef{{Type: t, Ptr: true}}
+			h.ResultIDs = []int{g.p.NewID()}
+			h.RetExpr = "nil"
+			decls = g.add(decls, h)
+		}
+	}
+	for round := 0; round < 2; round++ {
+		if len(earlier) > 0 && g.chance("indirectUser", 45) {
+			if ds := g.genIndirect(pkg, earlier, len(decls)); ds != nil {
+				for _, d := range ds {
+					decls = g.add(decls, d)
+				}
 			}
 		}
 	}
@@ -410,6 +439,40 @@ func (g *gen) genPkg(pkg *Pkg, earlier []*Pkg) {
 	if tfile != nil && len(tfile.Decls) > 0 {
 		files = append(files, tfile)
 	}
+	// type ( A ...; B ... ): pull further type declarations of the file into the
+	// group of an earlier one (each spec keeps its own doc comment, or has none)
+	for _, f := range files {
+		if !g.chance("typeGroup", 25) {
+			continue
+		}
+		var head *TypeDecl
+		hi := -1
+		for i, d := range f.Decls {
+			if td, ok := d.(*TypeDecl); ok {
+				head, hi = td, i
+				break
+			}
+		}
+		if head == nil {
+			continue
+		}
+		var members, rest []Decl
+		for _, d := range f.Decls[hi+1:] {
+			if td, ok := d.(*TypeDecl); ok && len(members) < 3 && g.chance("joinGroup", 60) {
+				td.JoinPrev, td.Grouped = true, false
+				members = append(members, td)
+			} else {
+				rest = append(rest, d)
+			}
+		}
+		if len(members) == 0 {
+			continue
+		}
+		head.Grouped = true
+		nd := append([]Decl{}, f.Decls[:hi+1]...)
+		nd = append(nd, members...)
+		f.Decls = append(nd, rest...)
+	}
 	if g.o.Aliases {
 		for _, f := range files {
 			for _, ep := range earlier {
@@ -417,6 +480,17 @@ func (g *gen) genPkg(pkg *Pkg, earlier []*Pkg) {
 					f.Aliases[ep] = fmt.Sprintf("x%s%d", ep.Name, ep.Idx)
 				}
 			}
+		}
+	}
+	if g.o.Rich {
+		for _, f := range files {
+			f.Unsafe = g.chance("importsUnsafe", 12)
+		}
+	}
+	// the same import name bound to different packages in different files of the package
+	if g.o.Aliases && len(earlier) >= 2 && len(files) >= 2 && g.chance("sharedAlias", 30) {
+		for _, f := range files {
+			f.Aliases[earlier[g.pick("sharedAliasPkg", len(earlier))]] = "dep"
 		}
 	}
 	pkg.Files = files
@@ -538,6 +612,9 @@ func (g *gen) genFields(td *TypeDecl, own []*TypeDecl, earlier []*Pkg) {
 }
 
 func (g *gen) annotate(td *TypeDecl) {
+	if g.chance("plainType", 12) {
+		return // no annotation at all
+	}
 	if g.has("imm") && g.chance("immutable", 65) {
 		td.Immutable = true
 	}
@@ -1203,6 +1280,34 @@ func (g *gen) genIndirect(pkg *Pkg, earlier []*Pkg, n int) []Decl {
 			}
 		}
 		return body
+	}
+	// a helper of an earlier package that hands out a type of a third package:
+	// the user need not import the package that declares (and annotates) the type
+	if g.chance("foreignHelper", 55) {
+		var hs []*FuncDecl
+		for _, ep := range earlier {
+			for _, f := range ep.Files {
+				if f.Kind != FileRegular {
+					continue
+				}
+				for _, d := range f.Decls {
+					if fd, ok := d.(*FuncDecl); ok && fd.Recv == nil && strings.HasPrefix(fd.Name, "H") && len(fd.Params) == 0 && len(fd.Results) == 1 &&
+						fd.Results[0].Ptr && fd.Results[0].Type.Exported() && fd.Results[0].Type.Pkg != ep && fd.Results[0].Type.Kind == KStruct {
+						hs = append(hs, fd)
+					}
+				}
+			}
+		}
+		if len(hs) > 0 {
+			h := hs[g.pick("foreignH", len(hs))]
+			t = h.Results[0].Type
+			u := &FuncDecl{ID: g.p.NewID(), Name: fmt.Sprintf("Fh%d", n), Pkg: pkg, done: true}
+			sc := &scope{g: g}
+			sc.addPar = func(v *Var) { u.Params = append(u.Params, v) }
+			o := &Var{Name: "_", Ref: &TypeRef{Type: t, Ptr: true}, CallOf: h}
+			u.Body = sitesOn(o, sc)
+			return []Decl{u}
+		}
 	}
 	if !t.Exported() {
 		// reachable only through the declaring package's exported getter
